@@ -324,13 +324,16 @@ fn check_mapping_empty(
             return Ok(true);
         }
     }
-    if let Some(idx) = &pos.indexed_properties {
-        if idx.key.is_empty(ctx)? {
-            return Ok(true);
-        }
-        if idx.value.is_empty(ctx)? {
-            return Ok(true);
-        }
+    // An index signature only makes the record empty when it requires keys (finite key set) that
+    // cannot be given a value; `{ [k: string]: never }` still contains `{}`.
+    if let Some(idx) = &pos.indexed_properties
+        && is_finite_string_set(&idx.key)
+        && extract_keys_from_type(&idx.key)
+            .iter()
+            .any(|k| !pos.vs.contains_key(k))
+        && idx.value.is_empty(ctx)?
+    {
+        return Ok(true);
     }
 
     // 2. If no negs, not empty (unless pos is empty, checked above)
